@@ -22,7 +22,7 @@ EXPLANATION = (
     ' (C05.6) witness workbook interpreted end to end: each cell alone vs all cells in written order twice / reversed / on a second evaluator, evaluators with namespaces of their own, constants and formula texts untouched, a second model with the same formula texts in the same process; (C05.2) also class-level containers grown on the evaluation path and raise of an exception object taken out of a container.'
     ' (C05.6) also the rounding family next to operands that cannot be rounded, array-valued formula cells, and the steady-state footprint: module-level values, class attributes, default-argument objects, the model and its evaluators have the same size after round 2 and round 3 of the same evaluations.')
 NOT_DECIDED = 'resident-set measurements; equality of values across evaluation orders (follows only under the model)'
-TRUSTED = ['call-graph restricted to evaluator.py, ast_nodes.py and the registered functions', 'workbook scenarios: pandas storage of range arrays as row-major rows, numpy on Python numbers (IEEE results, 64-bit integer wrap), dateutil.parser.parse rejecting texts that are no dates, openpyxl address arithmetic, inspect.signature built from the FunctionDef', 'functools.lru_cache keyed by hash/equality of the arguments']
+TRUSTED = ["default argument values are created once per process (Python's def-time evaluation), the decimal context is per process", 'call-graph restricted to evaluator.py, ast_nodes.py and the registered functions', 'workbook scenarios: pandas storage of range arrays as row-major rows, numpy on Python numbers (IEEE results, 64-bit integer wrap), dateutil.parser.parse rejecting texts that are no dates, openpyxl address arithmetic, inspect.signature built from the FunctionDef', 'functools.lru_cache keyed by hash/equality of the arguments']
 
 FORBIDDEN_ATTRS = {'formula', 'formulae', 'defined_names', 'address', 'terms', 'tokens', 'ast', 'cells',
                    'sheet_name', 'address_str', 'name'}
